@@ -70,6 +70,7 @@ def run(ctx):
   from rules import C15 as _c15      # the chord encodings read root and quality through chord_symbols_lib: a symbol of the grammar must not die with KeyError there
   _c15.regex_groups_into_tables(ctx, 'CHORD/regex-group-into-table')
   _c15.pitch_class_wraps_both_ways(ctx, 'CHORD/wrap-both-ways')
+  _c15.alteration_accumulates(ctx, 'CHORD/alteration-accumulates')
   event_validator_admits(ctx)
   chord_labels_below_num_classes(ctx)
   melody(ctx)
